@@ -392,46 +392,58 @@ Proof.
   intros E; injection E as <-. simpl. auto.
 Qed.
 
-(** Operations other than the two resizes leave the state alone when they raise. *)
-Definition is_resize (o : op) : bool :=
-  match o with SetRowH _ _ | SetColW _ _ => true | _ => false end.
-
+(** Whatever an operation raises, the state is unchanged. *)
 Lemma lift_grid_err t r e : snd (lift_grid t r) = Err e -> fst (lift_grid t r) = t.
 Proof. destruct r; simpl; auto. discriminate. Qed.
 
-Lemma step_err_unchanged t o e :
-  is_resize o = false -> snd (step t o) = Err e -> fst (step t o) = t.
-Proof. destruct o; simpl; try discriminate; intros _; apply lift_grid_err. Qed.
+Lemma step_err_unchanged t o e : snd (step t o) = Err e -> fst (step t o) = t.
+Proof.
+  destruct o; simpl; try apply lift_grid_err.
+  - unfold set_row_h. destruct (_ <? _); auto. destruct (in_coord _); auto.
+    destruct (in_poscoord _); simpl; auto. discriminate.
+  - unfold set_col_w. destruct (_ <? _); auto. destruct (in_coord _); auto.
+    destruct (in_poscoord _); simpl; auto. discriminate.
+Qed.
 
 Lemma lift_grid_sizes t r :
   widths (fst (lift_grid t r)) = widths t /\ heights (fst (lift_grid t r)) = heights t /\
   cx (fst (lift_grid t r)) = cx t /\ cy (fst (lift_grid t r)) = cy t.
 Proof. destruct r; simpl; auto. Qed.
 
-Lemma step_frame_ok t o :
-  frame_ok t -> (is_resize o = true -> snd (step t o) = Ok tt) -> frame_ok (fst (step t o)).
+(** frame = sums is kept by every operation, accepted or rejected *)
+Lemma step_frame_ok t o : frame_ok t -> frame_ok (fst (step t o)).
 Proof.
-  unfold frame_ok. intros [Hx Hy] Hres.
-  destruct o; simpl in *;
+  unfold frame_ok. intros [Hx Hy].
+  destruct o; simpl;
     try (match goal with |- context [lift_grid t ?r] =>
            destruct (lift_grid_sizes t r) as (-> & -> & -> & ->); auto end).
-  - specialize (Hres eq_refl). destruct (set_row_h t i h) as [t' r] eqn:E. simpl in *. subst r.
-    apply (set_row_h_ok t i h t') in E as (H1 & H2 & H3 & H4 & H5). rewrite H1, H3, H4. auto.
-  - specialize (Hres eq_refl). destruct (set_col_w t j w) as [t' r] eqn:E. simpl in *. subst r.
-    apply (set_col_w_ok t j w t') in E as (H1 & H2 & H3 & H4 & H5). rewrite H1, H3, H4. auto.
+  - unfold set_row_h. destruct (_ <? _); auto. destruct (in_coord _); auto.
+    destruct (in_poscoord _); simpl; auto.
+  - unfold set_col_w. destruct (_ <? _); auto. destruct (in_coord _); auto.
+    destruct (in_poscoord _); simpl; auto.
 Qed.
 
-(** The faithful model refutes the unconditional reading: a resize whose new total is
-    not a valid frame extent raises ValueError AFTER the row height has been written. *)
-Lemma frame_size_refuted :
-  exists t i h t',
-    new_tbl 1 1 100 100 = Ok t /\ frame_ok t /\
-    step t (SetRowH i h) = (t', Err ValueErr) /\ cy t' <> sumZ (heights t').
+Lemma run_ops_frame_ok ops : forall t, frame_ok t -> frame_ok (run_ops t ops).
 Proof.
-  eexists. exists 0, (-5)%Z. eexists. split; [vm_compute; reflexivity|].
-  split; [split; vm_compute; reflexivity|].
-  split; [vm_compute; reflexivity|]. vm_compute. discriminate.
+  unfold run_ops. induction ops as [|o ops IH]; simpl; auto.
+  intros t H. apply IH. apply step_frame_ok; auto.
 Qed.
+
+Lemma new_run_ops_frame_ok rows cols w h t ops :
+  new_tbl rows cols w h = Ok t ->
+  cx (run_ops t ops) = sumZ (widths (run_ops t ops)) /\
+  cy (run_ops t ops) = sumZ (heights (run_ops t ops)).
+Proof.
+  intros Hn. apply run_ops_frame_ok.
+  unfold new_tbl in Hn. destruct rows; [discriminate|]. destruct cols; [discriminate|].
+  destruct (_ && _); [|discriminate]. injection Hn as <-. unfold frame_ok; cbn [cx cy widths heights].
+  rewrite !distribute_sum by lia. auto.
+Qed.
+
+(** regression: the input that used to leave the row height written and the frame stale *)
+Lemma resize_rejected_regression :
+  exists t, new_tbl 1 1 100 100 = Ok t /\ step t (SetRowH 0 (-5)) = (t, Err ValueErr).
+Proof. eexists. split; vm_compute; reflexivity. Qed.
 
 (* ================================================================== invariant: easy operations *)
 Lemma Inv_at_sizes t t' regs :
